@@ -132,6 +132,18 @@ pub fn run(tier: Tier) -> i32 {
         }
     });
     run.absorb(l);
+    // size witnesses: strings, containers and nesting at and around 2^6 … 2^16
+    // serde_json refuses documents nested deeper than 128 arrays/objects (its recursion limit, the
+    // JSON counterpart of the Zinc decoder's nesting limit): deeper values are outside the scope
+    let sw: Vec<V> = u::size_witnesses(tier).into_iter().filter(|v| u::json_depth(v) <= 127).collect();
+    run.assume("values whose Hayson document nests deeper than serde_json's recursion limit (128 arrays/objects, i.e. 42 grids inside each other) are out of scope: a depth limit is what C03 demands of a decoder");
+    run.note("size_witnesses", json!(sw.len()));
+    let l = crate::engine::par_for_stack(sw.len(), 64 << 20, |i, local| {
+        check_value(&sw[i], local, true, &hayson_roundtrip);
+        local.count("size-witnesses");
+    });
+    run.absorb(l);
+
     let shards = u::container_shards(tier);
     let l = par_for(shards.len(), |i, local| {
         shards[i](&mut |v| {
